@@ -281,4 +281,25 @@ theorem stepS_upd_same {m m' : M} (g : Good m) (ho : m'.orderOk = m.orderOk) (ho
     (hs : m'.st = m.st) : StepS m m' :=
   ((Reach.start g).upd ho hout hb hm hp hn).stepS_of g hs
 
+-- the two calls at the top of `handle_submodule_log_line` --------------------------------
+
+theorem flushMP_idem (m : M) : flushMP (flushMP m) = flushMP m := by
+  have h1 := flushMP_minus m
+  have h2 := flushMP_plus m
+  generalize flushMP m = x at h1 h2 ⊢
+  unfold flushMP; simp [h1, h2]
+
+/-- `handle_additional_cases` starts with `paint_buffered_minus_and_plus_lines` itself -/
+theorem handleAdditionalCases_flushMP (cfg : Cfg) (m : M) (l : L) (to : State) :
+    handleAdditionalCases cfg (flushMP m) l to = handleAdditionalCases cfg m l to := by
+  unfold handleAdditionalCases; rw [flushMP_idem]
+
+/-- when no file header is pending, `handle_submodule_log_line` is `handle_additional_cases` alone -/
+theorem handleSubmoduleLog_of_nothing_pending {cfg : Cfg} {m : M} (l : L)
+    (h : pendingDiffName cfg (flushMP m) = flushMP m) :
+    handleSubmoduleLog cfg m l =
+      if !startsWith l.text Generated.Markers.submoduleLog then .ok (false, m)
+      else handleAdditionalCases cfg m l .submoduleLog := by
+  unfold handleSubmoduleLog; rw [h, handleAdditionalCases_flushMP]
+
 end Machine
